@@ -1,5 +1,6 @@
 import QuaiVerif.Driver.KV
 import QuaiVerif.Driver.Addr
+import QuaiVerif.Driver.State
 /- qvdriver: `qvdriver <area>` reads protocol lines on stdin, answers one line per line. -/
 open QuaiVerif
 
@@ -8,5 +9,6 @@ def main (args : List String) : IO UInt32 := do
   let stdout ← IO.getStdout
   match args with
   | ["kv"] => ioLoop KV.step stdin stdout {}; return 0
+  | ["state"] => ioLoop State.step stdin stdout {}; return 0
   | ["addr"] => ioLoop Addr.step stdin stdout {}; return 0
   | _ => IO.eprintln "usage: qvdriver <area>"; return 2
